@@ -38,7 +38,11 @@ def call_builtin(I, fn, args, kwargs, node):
     if recv is None:
         h = GLOBALS.get(name)
         if h is None:
-            raise AnalysisError('no transfer-table row for call %s at %s' % (name, norm(node)[:60]))
+            # an external callable without a transfer-table row: opaque result,
+            # recorded so that rules needing exhaustive sink coverage can refuse
+            I.emit('unmodelled-call', node, {'callee': name, 'args': args})
+            I.unmodelled = getattr(I, 'unmodelled', set()) | {name}
+            return Unk('call:%s' % name, taint=tj(*args, *kwargs.values()), src=('call', name, list(args)))
         return h(I, args, kwargs, node)
     kind, meth = name.split('.', 1)
     h = METHODS.get(meth)
